@@ -26,6 +26,7 @@ META = {
                     "exhaustive sequences of length n are checked after their last step; every proper prefix is itself an "
                     "enumerated sequence"],
 }
+REQUIRED_CLASSES = ["history:near_half_turn"]
 REQUIRED_CLAUSES = ["inv.shape", "inv.lastrow", "inv.rot", "inv.pos", "inv.exp", "inv.index", "model.pose"]
 
 # ----------------------------------------------------------------------------- palette
@@ -97,15 +98,31 @@ ATOMS = atomic_ops()
 INIT = [P6[0], P6[5], P6[3]]
 
 
-def random_op(rng):
+HALF_TURN_ANGLES = ["1e-9", "1e-7", "band", "generic2", "pi-1e-6", "pi-1e-7", "pi-1e-9", "near_pi", "near_pi"]
+
+
+def near_half_turn(rng):
+    """Pose whose rotation is within 1e-6 .. 3e-10 rad of a half turn: where the logarithm divides by sin(theta)."""
+    w = gen.axis(rng, gen.pick(rng, gen.AXIS_CLASSES)) * (PI - 10 ** rng.uniform(-9.5, -6))
+    return np.concatenate([rng.uniform(-10, 10, 3), w]).tolist()
+
+
+def random_op(rng, half_turn=False):
     def v6():
+        if half_turn:
+            ac = gen.pick(rng, HALF_TURN_ANGLES)
+            return near_half_turn(rng) if ac == "near_pi" else gen.taa(rng, 10.0, [ac]).tolist()
         return gen.taa(rng, 10.0, gen.ANGLE_NAMES).tolist()
     t = int(rng.integers(3))
     s = int(rng.integers(3))
     o = int(rng.integers(3))
-    k = gen.pick(rng, ["sTAA", "sTM", "ctor6l", "ctor6a", "ctor_mat", "ctor7", "ctor_rpy", "ctor3", "ctor_tm", "ctor_objarr", "set",
-                       "setitem", "setslice", "setQuat", "angleMod", "copy", "inv", "abs", "matmul", "add", "sub", "fdiv_tm",
-                       "l2g", "g2l", "matmul_arr", "add_arr", "mul", "rmul", "div", "fdiv_s"])
+    if half_turn:
+        k = gen.pick(rng, ["fdiv_tm", "fdiv_tm", "matmul", "matmul", "inv", "matmul_arr", "l2g", "g2l", "sTM", "ctor_mat", "ctor7", "setQuat", "angleMod",
+                           "copy", "add_arr", "sub", "rmul"])
+    else:
+        k = gen.pick(rng, ["sTAA", "sTM", "ctor6l", "ctor6a", "ctor_mat", "ctor7", "ctor_rpy", "ctor3", "ctor_tm", "ctor_objarr", "set",
+                           "setitem", "setslice", "setQuat", "angleMod", "copy", "inv", "abs", "matmul", "add", "sub", "fdiv_tm",
+                           "l2g", "g2l", "matmul_arr", "add_arr", "mul", "rmul", "div", "fdiv_s"])
     if k in ("sTAA", "sTM", "ctor6l", "ctor6a", "ctor_mat", "ctor7", "ctor_rpy"):
         return {"op": k, "t": t, "v": v6()}
     if k == "ctor3":
@@ -402,11 +419,13 @@ def plan(tier, seed):
     if tier == "quick":
         sp = [{"mode": "exh", "maxlen": 2, "part": 0, "parts": 1, "timeout_s": 900}]
         sp += [{"mode": "exh3sample", "frac": 0.03, "part": i, "parts": 7, "timeout_s": 900} for i in range(7)]
-        sp += [{"mode": "random", "n": 600, "timeout_s": 900} for _ in range(8)]
+        sp += [{"mode": "random", "n": 600, "timeout_s": 900} for _ in range(6)]
+        sp += [{"mode": "random", "half_turn": True, "n": 600, "timeout_s": 900} for _ in range(2)]
         return sp
     sp = [{"mode": "exh", "maxlen": 2, "part": 0, "parts": 1, "timeout_s": 3600}]
     sp += [{"mode": "exh3", "first": list(range(i, n, 31)), "timeout_s": 7200} for i in range(31)]
     sp += [{"mode": "random", "n": 20000, "timeout_s": 7200} for _ in range(16)]
+    sp += [{"mode": "random", "half_turn": True, "n": 20000, "timeout_s": 7200} for _ in range(4)]
     # the repository's own test-suite as a workload, every tm operation of the property's alphabet under the invariant contract
     sp.append({"mode": "suite", "timeout_s": 3600})
     return sp
@@ -466,8 +485,11 @@ def run_shard(spec, ctx):
         rng = ctx.rng
         for _ in range(int(spec["n"])):
             L = int(rng.integers(2, 13))
-            ops = [random_op(rng) for _ in range(L)]
-            init = [gen.taa(rng, 10.0).tolist() for _ in range(3)]
+            ht = bool(spec.get("half_turn"))
+            ops = [random_op(rng, ht) for _ in range(L)]
+            init = [near_half_turn(rng) if ht and rng.random() < 0.7 else gen.taa(rng, 10.0).tolist() for _ in range(3)]
+            if ht:
+                ctx.cls("history:near_half_turn")
             ctx.case([o["op"] for o in ops] + [gen.quant(init[0], 1e-6)], nontrivial(ops), sample_every=0)
             run_history(ops, ctx, tm, fsr, check_every_step=True, init=init)
         ctx.samples.append({"init": init, "ops": ops})
